@@ -70,6 +70,7 @@ type rangeInfo struct {
 }
 
 type Exec struct {
+	assertHit map[*CallAssert]bool // before/after clauses that matched a call site
 	curState *State // state of the instruction being executed (set around conversions that need the heap)
 	g        *Gen
 	P        *Program
